@@ -696,7 +696,7 @@ def calls_with_tail(core, name, tail=True, out=None):
 
 def r12n(ctx, rep, rule="R12n"):
     rep.rule(rule, "force is iterative (R7RS 4.2.5: delay-force chains run in constant space): in the core expansion of the "
-             "prelude's force, every call of force itself is a tail call. A non-tail self-call — forcing the promise the thunk "
+             "prelude's force, every call of force itself — or of the local procedure of force that calls itself — is a tail call. A non-tail self-call — forcing the promise the thunk "
              "returned before copying it — makes a chain of n delay-force steps recurse n deep, with every intermediate promise "
              "and environment rooted from the live frames.")
     try:
@@ -713,6 +713,20 @@ def r12n(ctx, rep, rule="R12n"):
         return
     core = expand([Sym("lambda"), d[1][1:]] + d[2:], macros)
     calls = calls_with_tail(core, "force")
+    # the loop may be a local procedure of force (bound by letrec: `(set! name (lambda ..))` in the core form)
+    def local_loops(x, out):
+        if isinstance(x, list) and x:
+            if x[0] == "set!" and len(x) == 3 and isinstance(x[2], list) and x[2] and x[2][0] in ("lambda", "λ"):
+                own = calls_with_tail(x[2], str(x[1]))
+                if own:
+                    out.append((str(x[1]), own))
+            if x[0] == "quote":
+                return out
+            for y in x:
+                local_loops(y, out)
+        return out
+    for nm, own in local_loops(core, []):
+        calls = calls + own
     key = rule + "|force|self-calls-are-tail-calls"
     if not calls:
         rep.anchor_lost(rule, "self-call of force")
@@ -722,3 +736,92 @@ def r12n(ctx, rep, rule="R12n"):
         rep.fail(rule, key, "force calls itself in a non-tail position (%d of %d calls): a delay-force chain is consumed recursively, "
                  "and stack and heap grow with the length of the chain although one promise is live" % (
                      len([c for c in calls if not c]), len(calls)), [path])
+
+
+R7RS_NAMES = set("""
+* + - / < <= = > >= abs and append apply assoc assq assv begin binary-port? boolean=? boolean? bytevector bytevector-append
+bytevector-copy bytevector-copy! bytevector-length bytevector-u8-ref bytevector-u8-set! bytevector? caar cadr call-with-current-continuation
+call-with-port call-with-values call/cc car case cdar cddr cdr ceiling char->integer char-ready? char<=? char<? char=? char>=? char>? char?
+close-input-port close-output-port close-port complex? cond cond-expand cons current-error-port current-input-port current-output-port
+define define-record-type define-syntax define-values denominator do dynamic-wind else eof-object eof-object? eq? equal? eqv? error
+error-object-irritants error-object-message error-object? even? exact exact-integer-sqrt exact-integer? exact? expt features file-error?
+floor floor-quotient floor-remainder floor/ flush-output-port for-each gcd get-output-bytevector get-output-string guard if include
+include-ci inexact inexact? input-port-open? input-port? integer->char integer? lambda lcm length let let* let*-values let-syntax let-values
+letrec letrec* letrec-syntax list list->string list->vector list-copy list-ref list-set! list-tail list? make-bytevector make-list
+make-parameter make-string make-vector map max member memq memv min modulo negative? newline not null? number->string number? numerator
+odd? open-input-bytevector open-input-string open-output-bytevector open-output-string or output-port-open? output-port? pair?
+parameterize peek-char peek-u8 positive? procedure? quasiquote quote quotient raise raise-continuable rational? rationalize read-bytevector
+read-bytevector! read-char read-error? read-line read-string read-u8 real? remainder reverse round set! set-car! set-cdr! square string
+string->list string->number string->symbol string->utf8 string->vector string-append string-copy string-copy! string-fill! string-for-each
+string-length string-map string-ref string-set! string<=? string<? string=? string>=? string>? string? substring symbol->string symbol=?
+symbol? syntax-error syntax-rules textual-port? truncate truncate-quotient truncate-remainder truncate/ u8-ready? unless unquote
+unquote-splicing utf8->string values vector vector->list vector->string vector-append vector-copy vector-copy! vector-fill! vector-for-each
+vector-length vector-map vector-ref vector-set! vector? when with-exception-handler write-bytevector write-char write-string write-u8 zero?
+case-lambda char-alphabetic? char-ci<=? char-ci<? char-ci=? char-ci>=? char-ci>? char-downcase char-foldcase char-lower-case? char-numeric?
+char-upcase char-upper-case? char-whitespace? digit-value string-ci<=? string-ci<? string-ci=? string-ci>=? string-ci>? string-downcase
+string-foldcase string-upcase angle imag-part magnitude make-polar make-rectangular real-part caaar caadr cadar caddr cdaar cdadr cddar cdddr
+caaaar caaadr caadar caaddr cadaar cadadr caddar cadddr cdaaar cdaadr cdadar cdaddr cddaar cddadr cdddar cddddr environment eval
+call-with-input-file call-with-output-file delete-file file-exists? open-binary-input-file open-binary-output-file open-input-file
+open-output-file with-input-from-file with-output-to-file acos asin atan cos exp finite? infinite? log nan? sin sqrt tan delay delay-force
+force make-promise promise? load command-line emergency-exit exit get-environment-variable get-environment-variables read interaction-environment
+current-jiffy current-second jiffies-per-second display write write-shared write-simple exact->inexact inexact->exact λ => ... _
+""".split())
+
+# private prelude globals a library procedure may still mention, with the reason
+PRIVATE_OK = {
+    "void": "for-each returns it as its unspecified value: whatever a program binds to the name is as good an unspecified value",
+}
+
+
+def r01s(ctx, rep, rule="R01s"):
+    """library code does not lean on names a program may use for itself"""
+    from . import popbalance
+    rep.rule(rule, "the library stands on standard names only: top-level names are late-bound, so a prelude procedure or macro "
+             "template that refers to a global which R7RS does not define — a private helper such as any?, map1 or promise-done? — "
+             "starts to fail as soon as a program defines that name for a purpose of its own ((define (any? x) x) broke map). "
+             "Every global a prelude procedure refers to free, and every global the core expansion of a schematic instance of a "
+             "derived form introduces, is therefore either a name R7RS defines (redefining those is not an unrelated "
+             "definition), a builtin the prelude does not define, or listed with a reason; helpers are bound locally.")
+    try:
+        macros, forms, path = load_macros(ctx["root"])
+    except (OSError, IndexError) as e:
+        rep.anchor_lost(rule, "marwood/prelude.scm unreadable: %s" % e)
+        return
+    private = {g for g in prelude_globals(forms) if g not in R7RS_NAMES}
+    rep.note("%s: prelude globals outside R7RS: %s" % (rule, ", ".join(sorted(private)) or "none"))
+    n = 0
+    for fm in forms:
+        if not (isinstance(fm, list) and len(fm) >= 3 and fm[0] == "define"):
+            continue
+        if isinstance(fm[1], list) and fm[1]:
+            name, lam = str(fm[1][0]), [Sym("lambda"), fm[1][1:]] + fm[2:]
+        elif isinstance(fm[1], Sym):
+            name, lam = str(fm[1]), fm[2]
+        else:
+            continue
+        try:
+            core = expand(lam, macros)
+        except RecursionError:
+            continue
+        n += 1
+        used = sorted(v for v in free_vars(core) if v in private and v != name and v not in PRIVATE_OK)
+        key = "%s|%s" % (rule, name)
+        (rep.ok if not used else rep.fail)(
+            rule, key, "%s refers to standard names only" % name if not used else
+            "the prelude's %s calls the private global%s %s: a program that defines %s for itself breaks %s" % (
+                name, "s" if len(used) > 1 else "", ", ".join(used), used[0], name), [path])
+    user = {"x", "y", "f", "i", "loop", "k", "a", "b", "c"}
+    extra = [("delay", "(delay %N1)"), ("delay-force", "(delay-force %N1)")]
+    for nm, text in INSTANCES + extra:
+        try:
+            core = expand(S(text), macros)
+        except RecursionError:
+            continue
+        n += 1
+        used = sorted(v for v in free_vars(core) if v in private and v not in user and v not in PRIVATE_OK)
+        key = "%s|template %s" % (rule, nm)
+        (rep.ok if not used else rep.fail)(
+            rule, key, "the expansion of %s introduces standard names only" % nm if not used else
+            "the expansion of %s introduces the private global%s %s: a program that defines %s for itself breaks the form" % (
+                text, "s" if len(used) > 1 else "", ", ".join(used), used[0]), [path])
+    rep.floor(rule, "prelude procedures and template instances examined", n, 40)
